@@ -114,6 +114,42 @@ pub fn run(toks: &[&str], out: &mut String) {
                 out.push_str(&format!(" L{}", it.len()));
             }
         }
+        // indiceshist SHAPE OPS : a call history on iter_indices mixing next() ("x") and nth(k) ("k"); every adaptor of the
+        // standard library that skips (skip, step_by, nth) goes through nth
+        "indiceshist" => {
+            let a = ramp(&parse_list(toks[1]));
+            let mut it = a.iter_indices();
+            out.push_str(&format!("L{}", it.len()));
+            for op in toks[2].split(',') {
+                let r = if op == "x" { it.next() } else { it.nth(op.parse().unwrap()) };
+                match r {
+                    Some(idx) => out.push_str(&format!(" I{}", fmt_list(&idx))),
+                    None => out.push_str(" N"),
+                }
+                out.push_str(&format!(" L{}", it.len()));
+            }
+        }
+        // viewhist SHAPE a i OPS : the same for the view iterator
+        "viewhist" => {
+            let a = ramp(&parse_list(toks[1]));
+            let ax: usize = toks[2].parse().unwrap();
+            let i: usize = toks[3].parse().unwrap();
+            match a.get_axis(Axis(ax), i) {
+                None => out.push_str("None"),
+                Some(v) => {
+                    let mut it = v.iter();
+                    out.push_str(&format!("L{}", it.len()));
+                    for op in toks[4].split(',') {
+                        let r = if op == "x" { it.next() } else { it.nth(op.parse().unwrap()) };
+                        match r {
+                            Some(x) => out.push_str(&format!(" S{}", int(*x))),
+                            None => out.push_str(" N"),
+                        }
+                        out.push_str(&format!(" L{}", it.len()));
+                    }
+                }
+            }
+        }
         // sum SHAPE a DATA
         "sum" => {
             let shape = parse_list(toks[1]);
